@@ -36,6 +36,8 @@ use std::panic::{catch_unwind, AssertUnwindSafe};
 
 pub struct Session {
     pub ax: Option<Axecutor>,
+    /// did the last `step` succeed? (`rrok` / `xmmok` observe a written register only then)
+    pub last_step_ok: bool,
 }
 
 fn name_opt(s: &str) -> Option<String> {
@@ -120,7 +122,7 @@ fn res_unit<E: std::fmt::Display>(r: Result<(), E>) -> String {
 
 impl Session {
     pub fn new() -> Self {
-        Session { ax: None }
+        Session { ax: None, last_step_ok: false }
     }
 
     fn ax(&mut self) -> &mut Axecutor {
@@ -366,9 +368,11 @@ impl Session {
             ["symcount"] => Some(format!("{:x}", self.ax().verif_symbols().len())),
             ["dec", ..] => Some("-".into()),
             ["nonative"] => Some("-".into()),
+            ["nomodel"] => Some("-".into()),
             ["step"] => {
                 let before = self.ax().verif_pipes();
                 let r = step_str(block_on(self.ax().step()));
+                self.last_step_ok = r.starts_with("ok");
                 // feedback for the model: descriptor numbers handed out by a pipe() call in this step
                 let after = self.ax().verif_pipes();
                 let newp: Vec<_> = after.iter().filter(|p| !before.iter().any(|q| q.0 == p.0)).collect();
@@ -418,6 +422,36 @@ impl Session {
                 }
                 Some("-".into())
             }
+            ["rrok", w, r] => {
+                // a register the instruction *writes* is observed only if the instruction completed (a failed one leaves it alone)
+                if !self.last_step_ok {
+                    return Some("step-failed".into());
+                }
+                let r = reg_by_name(r)?;
+                let ax = self.ax();
+                let res = match *w {
+                    "8" => ax.reg_read_8(r),
+                    "16" => ax.reg_read_16(r),
+                    "32" => ax.reg_read_32(r),
+                    "64" => ax.reg_read_64(r),
+                    _ => return None,
+                };
+                Some(match res {
+                    Ok(v) => format!("ok {:x}", v),
+                    Err(e) => err_out(&e),
+                })
+            }
+            ["xmmok", i] => {
+                if !self.last_step_ok {
+                    return Some("step-failed".into());
+                }
+                let i: usize = i.parse().ok()?;
+                Some(format!("{:x}", self.ax().reg_read_128(*XMM.get(i)?).ok()?))
+            }
+            ["xmm", i] => {
+                let i: usize = i.parse().ok()?;
+                Some(format!("{:x}", self.ax().reg_read_128(*XMM.get(i)?).ok()?))
+            }
             ["xmms"] => {
                 let ax = self.ax();
                 let v: Vec<String> = XMM.iter().map(|r| format!("{:x}", ax.reg_read_128(*r).unwrap())).collect();
@@ -450,6 +484,14 @@ impl Session {
                         .join(" "),
                 )
             }
+            ["tracetail", n] => {
+                // the number of entries and the last n of them (deep histories: the whole trace would be megabytes)
+                let n = parse_hex(n)? as usize;
+                let t = self.ax().verif_trace();
+                let tail: Vec<String> = t.iter().skip(t.len().saturating_sub(n))
+                    .map(|e| format!("{:x},{:x},{},{},{}", e.0, e.1, ["c", "r", "j"][e.2 as usize], e.3, e.4)).collect();
+                Some(format!("{} {}", t.len(), tail.join(" ")))
+            }
             ["callstack"] => {
                 let c = self.ax().verif_call_stack();
                 if c.is_empty() {
@@ -463,13 +505,15 @@ impl Session {
                 let t = ax.trace();
                 let c = ax.call_stack();
                 let _ = ax.to_string();
+                // "never fails": a renderer that returns Err has failed as much as one that panics
+                let status = format!("t={} c={}", if t.is_ok() { "ok" } else { "err" }, if c.is_ok() { "ok" } else { "err" });
                 if ERRTEXT.load(std::sync::atomic::Ordering::Relaxed) {
                     // C20: the rendered trace and call stack (symbol names, order, indentation) must not vary between runs;
                     // to_string() prints every register, written or not, and is only exercised
                     let text = format!("{:?}|{:?}", t.map_err(|e| e.to_string()), c.map_err(|e| e.to_string()));
-                    Some(format!("ok msg={:016x}", fnv64(text.as_bytes())))
+                    Some(format!("ok {} msg={:016x}", status, fnv64(text.as_bytes())))
                 } else {
-                    Some("ok".into())
+                    Some(format!("ok {}", status))
                 }
             }
             ["log"] => HOOK_LOG.with(|l| {
@@ -490,7 +534,11 @@ impl Session {
                         let rip = ax.reg_read_64(SR::RIP)?;
                         // "tryreg": the hook itself tries to register (a built-in syscall handler and a mnemonic hook); both must be
                         // refused while a hook runs, and a refused call must not leave anything behind
-                        let suffix = if outcome == "tryreg" {
+                        // "stoptryreg": stop first, then try to register — stopping does not end the hook
+                        if outcome == "stoptryreg" {
+                            ax.stop();
+                        }
+                        let suffix = if outcome == "tryreg" || outcome == "stoptryreg" {
                             fn noop(_: &mut Axecutor, _: SupportedMnemonic) -> Result<HookResult, Box<dyn std::error::Error>> {
                                 Ok(HookResult::Unhandled)
                             }
@@ -607,6 +655,15 @@ impl Session {
                     }
                     Err(e) => err_out(&e),
                 })
+            }
+            ["fill", a, n, v] => {
+                // n copies of the 8-byte value v from address a upwards (a stack full of return addresses, …)
+                let (a, n, v) = (parse_hex(a)?, parse_hex(n)?, parse_hex(v)?);
+                let mut bytes = Vec::with_capacity(8 * n as usize);
+                for _ in 0..n {
+                    bytes.extend_from_slice(&v.to_le_bytes());
+                }
+                Some(res_unit(self.ax().mem_write_bytes(a, &bytes)))
             }
             ["stat", ra, v] => {
                 // store a 64-bit value at the address held in a register (an address the run itself produced)
